@@ -123,17 +123,23 @@ def walkPound (b : Buf) (pos : Nat) (endchar : Option Char) : Except Err Nat :=
     | none => .error .index
     | some c => if !isSpace c then .ok (pos + 1) else .ok rest
 
-/-- the line-start test of the here-document search: skipping blanks backwards from `i`, is there a newline? -/
-def lineStartBefore (b : Buf) : Nat → Bool
+/-- the line-start test of the here-document search: is there a newline directly before `i` — for `<<-` (`tabs`) after
+skipping tabs backwards? -/
+def lineStartBefore (b : Buf) (tabs : Bool) : Nat → Bool
   | 0 => false
   | i + 1 =>
     match b[i]? with
-    | some c => if c = '\t' ∨ c = ' ' then lineStartBefore b i else c = '\n'
+    | some c => if tabs ∧ c = '\t' then lineStartBefore b tabs i else c = '\n'
     | none => false
 
-/-- the `while end_here != -1` search of `walk_here_statement` (after the fixes: the search always advances; an empty word
-ends at an empty line) -/
-def hereSearch (w : List Char) (b : Buf) (from_ : Nat) : Nat → Except Err (Option Nat)
+/-- is the occurrence of the here word at `e`, followed by the character `c`, the terminating line?  The line must be exactly
+the word (after leading tabs for `<<-`); inside `$( )` (`endchar = ')'`) the word may be followed by the closing parenthesis;
+an empty word ends at an empty line only -/
+def hereEnds (w : List Char) (b : Buf) (tabs : Bool) (endchar : Char) (e : Nat) (c : Char) : Bool :=
+  decide (c = '\n' ∨ (w.length ≠ 0 ∧ c = ')' ∧ endchar = ')')) && lineStartBefore b tabs e
+
+/-- the `while end_here != -1` search of `walk_here_statement` (after the fixes: the search always advances) -/
+def hereSearch (w : List Char) (b : Buf) (tabs : Bool) (endchar : Char) (from_ : Nat) : Nat → Except Err (Option Nat)
   | 0 => .error .fuel
   | fuel + 1 =>
     match findSub w b from_ with
@@ -142,8 +148,8 @@ def hereSearch (w : List Char) (b : Buf) (from_ : Nat) : Nat → Except Err (Opt
       match b[e + w.length]? with
       | none => .error .index
       | some c =>
-        if (if w.length ≠ 0 then oneOf ";\n\r})" c else oneOf "\n\r" c) ∧ lineStartBefore b e then .ok (some e)
-        else hereSearch w b (e + max w.length 1) fuel
+        if hereEnds w b tabs endchar e c then .ok (some e)
+        else hereSearch w b tabs endchar (e + max w.length 1) fuel
 
 /-- a recognised statement, as reported to the callbacks -/
 structure Stmt where
@@ -189,8 +195,8 @@ def applyMatch (m : Option (List Char → Bool)) (name : List Char) : Bool :=
   | none => false
 
 mutual
-/-- `walk_here_statement(buff, pos)` -/
-def walkHere (fuel : Nat) (b : Buf) (pos : Nat) : Except Err Nat :=
+/-- `walk_here_statement(buff, pos, endchar)` -/
+def walkHere (fuel : Nat) (b : Buf) (pos : Nat) (endchar : Char) : Except Err Nat :=
   match fuel with
   | 0 => .error .fuel
   | fuel + 1 =>
@@ -199,6 +205,7 @@ def walkHere (fuel : Nat) (b : Buf) (pos : Nat) : Except Err Nat :=
     | none => .error .index
     | some c =>
       if c = '<' then .ok (pos + 1) else
+      let tabs : Bool := c = '-'                       -- `<<-`: the terminating line may be indented with tabs
       let pos := skipWhileLt (fun c => isSpace c || c = '-') b pos
       match b[pos]? with
       | none => .error .index
@@ -211,7 +218,7 @@ def walkHere (fuel : Nat) (b : Buf) (pos : Nat) : Except Err Nat :=
         let word := slice b wstart endHere
         let endHere := endHere + 1
         if endHere ≥ b.length then pure endHere else
-        match ← hereSearch word b endHere (b.length + 1) with
+        match ← hereSearch word b tabs endchar endHere (b.length + 1) with
         | none => pure b.length
         | some e => pure (e + word.length)
 
@@ -233,7 +240,7 @@ def walkComplexLoop (fuel : Nat) (b : Buf) (start pos : Nat) (endchar : Char) (l
       else if ch = '\\' then walkComplexLoop fuel b start (pos + 2) endchar lvl
       else if ch = '<' then
         if pos + 1 < b.length ∧ b[pos + 1]? = some '<' ∧ lvl = .command then do
-          let p ← walkHere fuel b (pos + 1)
+          let p ← walkHere fuel b (pos + 1) endchar
           walkComplexLoop fuel b start p endchar lvl
         else walkComplexLoop fuel b start (pos + 1) endchar lvl
       else if ch = '#' then
@@ -567,10 +574,7 @@ def joinBar : List (List Char) → List Char
 def buildRegexString (tokens : List (List Char)) (invert : Bool) : Option (List Char) :=
   let tokens := tokens.filter (· ≠ [])
   if tokens = [] then none else
-  let s := match tokens with
-    | [t] => t
-    | _ => ['(', '?', ':'] ++ joinBar tokens ++ [')']
-  let s := '^' :: s ++ ['$']
+  let s := '^' :: (['(', '?', ':'] ++ joinBar tokens ++ [')']) ++ ['$']
   some (if invert then ['(', '?', '!'] ++ s ++ [')'] else s)
 
 inductive SelErr
